@@ -145,15 +145,17 @@ type Goroutine struct {
 
 // ModuleGoroutines returns goroutines of the current bubble (if any marker is present) that have
 // a frame in the module under test.
+var stackBuf = make([]byte, 1<<18)
+
 func ModuleGoroutines() (ret []Goroutine) {
-	buf := make([]byte, 1<<20)
+	var buf []byte
 	for {
-		n := runtime.Stack(buf, true)
-		if n < len(buf) {
-			buf = buf[:n]
+		n := runtime.Stack(stackBuf, true)
+		if n < len(stackBuf) {
+			buf = stackBuf[:n]
 			break
 		}
-		buf = make([]byte, 2*len(buf))
+		stackBuf = make([]byte, 2*len(stackBuf))
 	}
 	for _, blk := range strings.Split(string(buf), "\n\n") {
 		m := goroutineHdr.FindStringSubmatch(blk)
